@@ -139,9 +139,9 @@ class ShellProgram:
                                                  self.info['provides'], self.info['requires'],
                                                  self.info['injected'])
         self.mapping = mapping or {}
-        warmups = (shellbuild.contrasting_configs(self.enc) +
-                   shellbuild.equivalent_spellings(self.enc, self.info['provides'],
-                                                   self.info['requires'])) if self.warm else None
+        warmups = (shellbuild.equivalent_spellings(self.enc, self.info['provides'],
+                                                   self.info['requires']) +
+                   shellbuild.contrasting_configs(self.enc)) if self.warm else None
         res = shellbuild.outcome(self.enc, M.to_json(self.gen.model), warmups=warmups)
         if 'files' not in res:
             self.build_exc = res['exc']
